@@ -3,6 +3,7 @@ CONSTANTS Record = FALSE
           MaxLen = 5
           MaxStack = 2
           Rich = FALSE
+          GH = FALSE
 CONSTRAINT Bound
 INVARIANT InvTypeOK
 PROPERTY SiblingsKept
